@@ -24,6 +24,7 @@ import (
 	"sort"
 	"strings"
 	"sync"
+	"sync/atomic"
 	"syscall"
 	"time"
 
@@ -366,7 +367,7 @@ func short(s string) string {
 	return s
 }
 
-func createObs(o objects.Objects, r io.Reader) (ob Obs) {
+func createObsRaw(o objects.Objects, r io.Reader) (ob Obs) {
 	defer func() {
 		if p := recover(); p != nil {
 			if ie, ok := p.(*injErr); ok {
@@ -384,7 +385,7 @@ func createObs(o objects.Objects, r io.Reader) (ob Obs) {
 	return Obs{T: "key", Key: k}
 }
 
-func openObs(o objects.Objects, key string) (ob Obs) {
+func openObsRaw(o objects.Objects, key string) (ob Obs) {
 	defer func() {
 		if p := recover(); p != nil {
 			ob = Obs{T: "panic", Msg: short(fmt.Sprint(p))}
@@ -405,12 +406,41 @@ func openObs(o objects.Objects, key string) (ob Obs) {
 	return Obs{T: "found", B: segsOf(bs), d: bs}
 }
 
-func hasObs(o objects.Objects, key string) Obs {
+func hasObsRaw(o objects.Objects, key string) Obs {
 	h, err := o.Has(key)
 	if err != nil {
 		return errObs(err)
 	}
 	return Obs{T: "bool", V: h}
+}
+
+// A call of the code under test that does not return within the limit is an
+// observation ("timeout"); the harness then finishes the current case and
+// stops, because the goroutine cannot be killed.
+var hung int32
+
+const callLimit = 30 * time.Second
+
+func limited(f func() Obs) Obs {
+	ch := make(chan Obs, 1)
+	go func() { ch <- f() }()
+	select {
+	case ob := <-ch:
+		return ob
+	case <-time.After(callLimit):
+		atomic.StoreInt32(&hung, 1)
+		return Obs{T: "timeout"}
+	}
+}
+
+func createObs(o objects.Objects, r io.Reader) Obs {
+	return limited(func() Obs { return createObsRaw(o, r) })
+}
+func openObs(o objects.Objects, key string) Obs {
+	return limited(func() Obs { return openObsRaw(o, key) })
+}
+func hasObs(o objects.Objects, key string) Obs {
+	return limited(func() Obs { return hasObsRaw(o, key) })
 }
 
 // ---- digest table -----------------------------------------------------------
@@ -570,7 +600,13 @@ func (g *gen) emit(c *Case) {
 	if c.Tab == nil {
 		c.Tab = [][2]interface{}{}
 	}
+	if atomic.LoadInt32(&hung) != 0 && c.Note == "" {
+		c.Note = "stuck"
+	}
 	g.out.Emit(c)
+	if atomic.LoadInt32(&hung) != 0 {
+		os.Exit(3)
+	}
 }
 
 func (g *gen) content() []byte {
@@ -695,6 +731,10 @@ func (g *gen) runFsOps(stream string, ops []Op, strays bool) {
 		ls := e.ls()
 		op.Ls = &ls
 		c.Obs = append(c.Obs, ob)
+		if atomic.LoadInt32(&hung) != 0 {
+			ops = ops[:i+1]
+			break
+		}
 	}
 	fin := e.ls()
 	c.Final = &fin
@@ -1055,10 +1095,35 @@ func (g *gen) runFree(kind string, readers []*scriptReader, keys []string) {
 		}(p)
 	}
 	close(start)
-	wg.Wait()
+	allDone := make(chan struct{})
+	go func() { wg.Wait(); close(allDone) }()
+	stuck := false
+	select {
+	case <-allDone:
+	case <-time.After(120 * time.Second):
+		// some Create never returned: report what there is and stop (the goroutines cannot be killed)
+		stuck = true
+	}
 	close(stop)
-	pwg.Wait()
+	if !stuck {
+		pwg.Wait()
+	}
 	tab := newTab()
+	if stuck {
+		pmu.Lock()
+		for t := range results {
+			if results[t].T == "" {
+				results[t] = Obs{T: "timeout"}
+			}
+		}
+		c := &Case{Stream: "free", Kind: kind, Results: results, Note: "stuck"}
+		for _, sr := range readers {
+			c.Scripts = append(c.Scripts, sr.recorded())
+		}
+		c.Final = &Ls{Keys: []string{}, Tmps: [][]Seg{}}
+		g.emit(c)
+		os.Exit(3)
+	}
 	c := &Case{Stream: "free", Kind: kind, Results: results}
 	for _, sr := range readers {
 		rec := sr.recorded()
@@ -1180,6 +1245,10 @@ func (g *gen) runMemOps(stream, kind string, ops []Op) {
 			ob = hasObs(mapped, op.Key)
 		}
 		c.Obs = append(c.Obs, ob)
+		if atomic.LoadInt32(&hung) != 0 {
+			ops = ops[:i+1]
+			break
+		}
 	}
 	c.Ops = ops
 	c.Tab = tab.rows
